@@ -373,7 +373,9 @@ func runC09(ctx *report.Ctx) {
 			return
 		}
 		bad := refusedDraws[c.Choose(len(refusedDraws), "refused")]
-		e2 := rcases[c.Choose(len(rcases), "second")]
+		// the other draw in between: every third case in the quick tier (all of them in the thorough one)
+		stride := report.Pick(ctx, 3, 1)
+		e2 := rcases[(stride*c.Choose((len(rcases)+stride-1)/stride, "second"))%len(rcases)]
 		seed := []string{"abc", "7"}[c.Choose(2, "seed")]
 		src := "title: A\n---\n<<call cap(1, " + e1.expr + ")>>\n<<call cap(0, " + bad + ")>>\n<<call cap(1, " + e1.expr + ")>>\n<<call cap(2, " + e2.expr + ")>>\n<<call cap(1, " + e1.expr + ")>>\nround\n<<jump A>>\n===\n"
 		w := fmt.Sprintf("seed=%q %s, then %s (refused), then %s, %s, %s, 8 rounds", seed, e1.expr, bad, e1.expr, e2.expr, e1.expr)
